@@ -727,7 +727,13 @@ impl Vec3A {
     #[inline]
     #[must_use]
     pub fn round(self) -> Self {
-        Self(f32x4_nearest(self.0))
+        // Round half-way cases away from zero, like `f32::round`:
+        // trunc(v) + copysign(1, v) where |v - trunc(v)| >= 0.5 (the subtraction is exact).
+        let truncated = f32x4_trunc(self.0);
+        let fraction = f32x4_abs(f32x4_sub(self.0, truncated));
+        let away = f32x4_ge(fraction, f32x4_splat(0.5));
+        let signed_one = v128_or(f32x4_splat(1.0), v128_and(self.0, f32x4_splat(-0.0)));
+        Self(f32x4_add(truncated, v128_and(away, signed_one)))
     }
 
     /// Returns a vector containing the largest integer less than or equal to a number for each
